@@ -149,6 +149,12 @@ fn id_choices(n: usize) -> Vec<IdRef> {
     for back in 0..n {
         v.push(if back == 0 { IdRef::Latest(0) } else { IdRef::Ancestor(0, back as u8) });
     }
+    // near misses of ids the server knows (one byte off at either end, half the id off): no
+    // prefix, suffix or truncated comparison may take them for the real thing
+    for back in 0..n.min(3) {
+        v.push(IdRef::Near(0, back as u8, (back % 2) as u8));
+        v.push(IdRef::Near(0, back as u8, 2 + (back % 2) as u8));
+    }
     v
 }
 
